@@ -86,7 +86,7 @@ class Ctx:
                "nontrivial": 0, "states": 0, "domain": domain or ""}
         fn = _FanoutCall(self.module.__name__, fn_name)
         nt = set()
-        for r in pool.imap(fn, jobs, chunksize=1):
+        for job, r in zip(jobs, pool.imap(fn, jobs, chunksize=1)):
             if "crash" in r:
                 raise explorer.InternalError("fan-out %s crashed:\n%s" % (name, r["crash"]))
             tot["evaluations"] += r.get("evaluations", 0)
@@ -101,6 +101,10 @@ class Ctx:
             for v in r.get("violations", []):
                 v = dict(v)
                 v["harness"] = name
+                # which job found it: a violation that needs what the same process did before (module-level state of the
+                # library, reuse of freed objects) only reproduces when the whole job is run again
+                v["_fn"] = fn_name
+                v["_job"] = job
                 self.violations.append(v)
             for s in r.get("samples", []):
                 if len(self.samples) < 8:
@@ -158,6 +162,16 @@ def matches(finding, v):
 
 def reproduce(module, rec):
     """Re-execute a stored replay record; returns list of violations seen."""
+    vs = _reproduce_single(module, rec)
+    want = sig_hash(rec["sig"]) if "sig" in rec else None
+    if rec.get("_fn") and not any(sig_hash(x["sig"]) == want for x in vs):
+        # not reproducible from the single case: run the job that found it once more, from its start
+        r = getattr(module, rec["_fn"])(rec["_job"])
+        vs = list(vs) + list(r.get("violations", []))
+    return vs
+
+
+def _reproduce_single(module, rec):
     if hasattr(module, "replay"):
         out = module.replay(rec)
         if out is not None:
@@ -259,6 +273,7 @@ def run_check(prop, tier, replay_path=None):
         new.append((h, v, n))
 
     rc = 0
+    not_reproduced = 0
     replay_dir = os.path.join(OUT, "replays", prop)
     if os.path.isdir(replay_dir):
         for fn in os.listdir(replay_dir):
@@ -279,7 +294,7 @@ def run_check(prop, tier, replay_path=None):
         if not ok:
             print("internal error: violation %s did not reproduce on replay: %s"
                   % (h, json.dumps(_jsonable(v))[:2000]))
-            rc = max(rc, 2)
+            not_reproduced += 1
             continue
         os.makedirs(replay_dir, exist_ok=True)
         path = os.path.join(replay_dir, "%s.json" % h)
@@ -295,6 +310,8 @@ def run_check(prop, tier, replay_path=None):
             print("  init=%s trace=%s" % (v.get("init"), v["trace"]))
         rc = max(rc, 1)
 
+    if not_reproduced and rc == 0:
+        rc = 2      # nothing was established: an observation that cannot be reproduced is an internal error, not a verdict
     write_evidence(ctx, open_f, len(new))
     tot_states = sum(r.states for r in ctx.results) + sum(f["states"] for f in ctx.fanouts)
     tot_trans = sum(r.transitions for r in ctx.results) + sum(f["evaluations"] for f in ctx.fanouts)
